@@ -238,10 +238,13 @@ def judge_reject(s):
     shape = R.shape(s[0])
     env = reject_env(shape)
     n = 0
-    for bad in [Action.ACTUATE, Action.PICK_N_DROP] + NON_ACTIONS:
+    from gym_gridverse.debugging import reset_gv_debug
+
+    for bad, debug in [(b, d) for b in [Action.ACTUATE, Action.PICK_N_DROP] + NON_ACTIONS for d in (True, False)]:
         n += 1
-        sig = {'part': 'reject', 'action': repr(bad)}
+        sig = {'part': 'reject', 'action': repr(bad), 'debug': debug}
         for call in ('functional_step', 'step'):
+            reset_gv_debug(debug)
             st = mkstate(s)
             env.set_seed(5)
             env._state = st
@@ -255,11 +258,13 @@ def judge_reject(s):
                 else:
                     env.step(bad)
             except ValueError:
-                pass
+                reset_gv_debug(True)
             except Exception as e:  # noqa: BLE001
+                reset_gv_debug(True)
                 return n, f'{call} with {bad!r} outside the action space raised {type(e).__name__}, expected ValueError', sig
             else:
-                return n, f'{call} accepted {bad!r}, which is outside the action space', sig
+                reset_gv_debug(True)
+                return n, f'{call} accepted {bad!r}, which is outside the action space (debug flag {debug})', sig
             if sdesc(st) != s or env._state is not st:
                 return n, f'rejected action {bad!r} changed the state', sig
             if env._rng.bit_generator.state != before_rng:
@@ -384,6 +389,8 @@ def make_hooks(env, name):
 
 
 def replay(case):
+    if case['kind'] == 'job':
+        return dyn.replay_job(case, _worker)
     kind = case['kind']
     if kind == 'step':
         return judge(tuple(case['names']), tup(case['s']), case['a'])[2]
@@ -413,6 +420,12 @@ def run(rep, tier, seed):
             if sh[0] * sh[1] <= 6:
                 plan.append(dict(shape=sh, sigma='full', k=1, held='two', chains=[(n,) for n in dyn.SINGLES], actions=R.ACTIONS))
                 plan.append(dict(shape=sh, sigma='obj5', k=2, held='two', chains=[dyn.CHAIN_FULL], actions=R.ACTIONS, only_k=2))
+        # three or four telepods (any mix of two colours): a valid state the shipped levels never contain
+        for sh in ((1, 3), (2, 2), (2, 3)):
+            for kk in (3, 4):
+                if kk <= sh[0] * sh[1]:
+                    plan.append(dict(shape=sh, sigma='tele2', k=kk, held='none', chains=[dyn.CHAIN_FULL, ('teleport',)],
+                                     actions=R.ACTIONS[:2] + R.ACTIONS[6:7], only_k=kk))
     else:
         plan = dyn.standard_plan(tier, CHAINS_LO, CHAINS_HI, held_lo='small', held_hi='two', sigma_hi='reduced')
         # every ordered pair of distinct built-in transition functions (composition order matters for closure)
